@@ -7,6 +7,8 @@ src=$1; pkg=$2; re=$3; id=$4; shift 4
 export GOFLAGS=-mod=mod GOPROXY=off GOSUMDB=off GOTOOLCHAIN=local
 G=/root/go/pkg/mod/golang.org/toolchain@v0.0.1-go1.24.2.linux-amd64/bin/go
 W=/tmp/seedeval-$id
+# SEEDEVAL_PHASE=confirm: only step 1 (never touches /repo's working tree); =check: only step 2, reusing step 1's verdict
+if [ "${SEEDEVAL_PHASE:-}" != check ]; then
 rm -rf $W; git -C /repo worktree add -q --detach $W HEAD || exit 2
 cp $src/demo_test.go $W/$pkg/zz_seed_demo_test.go
 (cd $W && $G test -vet=off -count=1 -run "$re" ./$pkg/ > /tmp/seedeval-$id.unchanged.log 2>&1); u=$?
@@ -18,13 +20,18 @@ rm $W/$pkg/zz_seed_demo_test.go
 s=$(wc -l < /tmp/seedeval-$id.suite.log)
 echo "CONFIRM id=$id demo_unchanged_exit=$u (want 0) build_exit=$b (want 0) demo_changed_exit=$c (want !=0) package_suite_new_failures=$s (want 0)"
 git -C /repo worktree remove --force $W
+echo "$u $b $c $s" > /tmp/seedeval-$id.confirm
+fi
+[ "${SEEDEVAL_PHASE:-}" = confirm ] && exit 0
+read u b c s < /tmp/seedeval-$id.confirm || exit 2
 cd /verif
 git -C /repo apply $src/patch.diff || { echo "patch does not apply to /repo"; exit 2; }
 for p in "$@"; do
-  ./check $p quick > /tmp/seedeval-$id.$p.log 2>&1; e=$?
+  VERIF_OUT=/tmp/seedeval-$id.out ./check $p quick > /tmp/seedeval-$id.$p.log 2>&1; e=$?
   echo "CHECK id=$id prop=$p exit=$e $(grep -c '^VIOLATION' /tmp/seedeval-$id.$p.log) violations: $(grep 'fingerprint' /tmp/seedeval-$id.$p.log | head -3 | tr '\n' ' ' | cut -c1-300)"
 done
 git -C /repo checkout -- .
+rm -rf /tmp/seedeval-$id.out
 git -C /repo status --short | head -3
 # keep it (only if confirmed)
 if [ $u -eq 0 ] && [ $b -eq 0 ] && [ $c -ne 0 ] && [ $s -eq 0 ]; then
